@@ -42,12 +42,17 @@ func (k Keeper) ClosePosition(ctx sdk.Context, msg *types.MsgClose, baseCurrency
 	}
 
 	// Should be declared after SettleMTPBorrowInterestUnpaidLiability and settling funding
-	closingRatio := msg.Amount.ToLegacyDec().Quo(mtp.Custody.ToLegacyDec())
-	if mtp.Position == types.Position_SHORT {
-		closingRatio = msg.Amount.ToLegacyDec().Quo(mtp.Liabilities.ToLegacyDec())
-	}
-	if closingRatio.GT(math.LegacyOneDec()) {
-		closingRatio = math.LegacyOneDec()
+	// a position whose custody is used up (by interest and funding) can only be closed in full: Repay
+	// destroys it, so everything it still owes and posted has to leave the pool totals with it
+	closingRatio := math.LegacyOneDec()
+	if mtp.Custody.IsPositive() {
+		closingRatio = msg.Amount.ToLegacyDec().Quo(mtp.Custody.ToLegacyDec())
+		if mtp.Position == types.Position_SHORT {
+			closingRatio = msg.Amount.ToLegacyDec().Quo(mtp.Liabilities.ToLegacyDec())
+		}
+		if closingRatio.GT(math.LegacyOneDec()) {
+			closingRatio = math.LegacyOneDec()
+		}
 	}
 
 	// Estimate swap and repay
